@@ -939,7 +939,7 @@ def scn_hastings_1d(kind, n_params, dim, index, index2, sign):
     return scn
 
 
-def scn_hastings_dirichlet(K, kind="dirichlet"):
+def scn_hastings_dirichlet(K, kind="dirichlet", holder="plain"):
     """DirichletOperator: x on the simplex, x' ~ Dirichlet(s x) (checked: the concentration of the distribution object whose
     sample() is used, and that the parameter is set to the draw); the true ratio is
         log Dir(x ; s x') - log Dir(x' ; s x),   log Dir(v; c) = sum (c_i - 1) log v_i + lgamma(sum c) - sum lgamma(c_i)
@@ -960,7 +960,14 @@ def scn_hastings_dirichlet(K, kind="dirichlet"):
             def sample(self, sample_shape=torch.Size()):
                 seen.append(self.concentration)
                 return _clone(xp)
-        p = Parameter("freqs", _clone(x))
+        if holder == "view":
+            # the frequencies are a slice of a larger packed parameter (its storage is shared: reading the view does not copy)
+            from torchtree.core.parameter import ViewParameter
+            extra = mk.real("extra", (2,))
+            base_p = Parameter("packed", torch.cat((_clone(x), extra), -1))
+            p = ViewParameter("freqs", base_p, slice(0, K))
+        else:
+            p = Parameter("freqs", _clone(x))
         op = _operator_class(kind)("op", [p], 1.0, 0.24, s)
         dist = _NS(torch.distributions, Dirichlet=DrawDirichlet)
         with _module_names(om, torch=_NS(torch, distributions=dist)):
@@ -2561,6 +2568,8 @@ def obligations(tier, seed):
                             obs.append(scenario_ob("C15", name, "V", "scn_hastings_1d", (kind, n_params, dim, index, index2, sign), clause=H, funcs=F, seed=seed))
     for K in ((2, 3, 4, 5) if thorough else (2, 3, 4)):
         obs.append(scenario_ob("C15", "C15.hastings.dirichlet[K=%d]" % K, "V", "scn_hastings_dirichlet", (K,), clause=H, funcs=F, seed=seed, timeout=900))
+        if K <= 3:
+            obs.append(scenario_ob("C15", "C15.hastings.dirichlet[K=%d,view of a packed parameter]" % K, "V", "scn_hastings_dirichlet", (K, "dirichlet", "view"), clause=H, funcs=F, seed=seed, timeout=900))
     # tune
     T = "tuning moves the proposal scale toward the target acceptance"
     for name in GRID:
